@@ -44,6 +44,14 @@ def find(d: Def):
                 row_vars.add(a.id)
             if isinstance(b, ast.Name) and it.args and _mentions_parent(it.args[0], set()):
                 parent_names.add(b.id)
+        elif fn == "zip" and isinstance(loop.target, ast.Tuple) and len(it.args) == 1 and isinstance(it.args[0], ast.Starred):
+            # for idx, pid in zip(*topology): the roles are in the names
+            for tg in loop.target.elts:
+                if isinstance(tg, ast.Name):
+                    if any(w in tg.id.lower() for w in PARENT_WORDS):
+                        parent_names.add(tg.id)
+                    else:
+                        row_vars.add(tg.id)
         elif fn == "zip" and isinstance(loop.target, ast.Tuple):
             for tg, src in zip(loop.target.elts, it.args):
                 if isinstance(tg, ast.Name):
@@ -81,6 +89,11 @@ def find(d: Def):
                 for rd in ast.walk(dep):
                     if isinstance(rd, ast.Subscript) and isinstance(rd.value, ast.Name) and rd.value.id == arr \
                             and _mentions_parent(rd.slice, pnames):
+                        hit = rd
+                        break
+                    if isinstance(rd, ast.Compare) and len(rd.ops) == 1 and isinstance(rd.ops[0], (ast.In, ast.NotIn)) \
+                            and isinstance(rd.comparators[0], ast.Name) and rd.comparators[0].id == arr \
+                            and _mentions_parent(rd.left, pnames):
                         hit = rd
                         break
                 if hit is not None:
